@@ -1,3 +1,3 @@
 From Coq Require Import Extraction ExtrOcamlBasic ZArith NArith List.
-From MW Require Import PyBase Nodes Builder.
-Extraction "builder_model.ml" Z.succ N.succ Nat.succ build str_code.
+From MW Require Import PyBase Nodes Builder Flatten.
+Extraction "builder_model.ml" Z.succ N.succ Nat.succ build str_code fl_code wf_codeb erase.
